@@ -94,6 +94,19 @@ def dominant_family(rng, count, k=2):
     return out
 
 
+def heavy_item_family(rng, count):
+    """one item at least as large as all the others together (values of ordinary size), 3-5 bins: the heavy item fills a bin of its own and the rest
+    is an instance of its own with one bin fewer - shortcuts that are sound for two bins ("the largest item dominates: done") are not for more"""
+    out = []
+    for i in range(count):
+        n = rng.randint(4, 7)
+        rest = [rng.randint(1, rng.choice([9, 30, 60])) for _ in range(n)]
+        out.append({"vals": [sum(rest) + rng.choice([0, 0, 1, 5, 40])] + rest, "k": rng.choice([3, 3, 3, 4, 4, 5])})
+        if i % 2:
+            rng.shuffle(out[-1]["vals"])
+    return out
+
+
 def witness_family(rng, count):
     """instances beyond the exhaustive TLA+ oracle (8-11 items, 3-5 bins) for the witness-judged half of C02: the sizes at which the recursive /
     sequential partitioners' branches, windows and incumbent updates do real work (a 5-bin defect of rnp showed on about 1 in 1000 such inputs)"""
@@ -227,13 +240,13 @@ def _planted_bins(rng, count, maxitems, C_choices, exact=True):
     return out
 
 
-def planted_small_packings(rng, count):
+def planted_small_packings(rng, count, bins=(3, 3, 4), minitems=0, maxitems=14):
     """perfect packings of 10-14 items (3-4 bins of 2-5 items each, bin sizes 30..100) in random order: the optimum is the number of planted bins, and the
     search of bin completion has long completions made of many small items to find (or wrongly discard)"""
     out = []
     for _ in range(count):
         C = rng.choice([30, 50, 60, 100])
-        m = rng.choice([3, 3, 4])
+        m = rng.choice(bins)
         vals, cert = [], []
         for b in range(m):
             per = rng.choice([2, 3, 3, 4, 5])
@@ -241,7 +254,7 @@ def planted_small_packings(rng, count):
             parts = [b2 - a for a, b2 in zip([0] + cuts, cuts + [C])]
             cert.append(list(range(len(vals) + 1, len(vals) + len(parts) + 1)))
             vals += parts
-        if len(vals) > 14:
+        if len(vals) > maxitems or len(vals) < minitems:
             continue
         perm = list(range(len(vals))); rng.shuffle(perm)
         newvals = [0] * len(vals); pos = {}
@@ -382,4 +395,30 @@ def gscale_families(rng, count, cover=True):
         rng.shuffle(vals)
         out.append({"vals": vals, "C": C, "mul": mul,
                     "fmts": [rng.choice(["int32array", "int32array", "uint32array", "int64array", "list", "iddict"])]})
+    return out
+
+
+def long_families(rng, count, cover=False, lo=65, hi=260):
+    """LONG inputs (65-260 items): an implementation may switch to another code path above a size threshold (an indexed search, a vectorised
+    loop, a different sort) - shapes that make exact fits the only room left, complementary pairs, and uniform values"""
+    out = []
+    for i in range(count):
+        C = rng.choice([100, 60, 64, 30])
+        n = rng.randint(lo, hi)
+        kind = i % 4
+        if kind == 0:
+            vals = [rng.randint(0 if not cover else 1, C) for _ in range(n)]
+        elif kind == 1:          # complementary pairs a, C-a in arrival order a, C-a, ...: the partner fits exactly one bin
+            vals = []
+            while len(vals) < n:
+                a = rng.randint(C // 2 + 1, C - 1); vals += [a, C - a]
+        elif kind == 2:          # few distinct values, many ties
+            pool = [rng.randint(1, C) for _ in range(4)]
+            vals = [rng.choice(pool) for _ in range(n)]
+        else:                    # exact fills by triples, shuffled
+            vals = []
+            while len(vals) < n:
+                a = rng.randint(1, C - 2); b = rng.randint(1, C - a - 1); vals += [a, b, C - a - b]
+            rng.shuffle(vals)
+        out.append({"vals": vals[:hi], "C": C})
     return out
